@@ -146,7 +146,7 @@ var props = map[string]*propConfig{
 			{Name: "histories", Flags: map[string]string{"family": "histories"}, Quick: 24000, Thorough: 2400000},
 			{Name: "independent-writer", Flags: map[string]string{"family": "encoded"}, Quick: 4000, Thorough: 1200000},
 		},
-		QuickBudget: 90 * time.Second, ThoroughBudget: 25 * time.Minute, Chunk: 50,
+		QuickBudget: 150 * time.Second, ThoroughBudget: 25 * time.Minute, Chunk: 50,
 		Rule:        "independent-writer: a file written by the independent encoder (metadata lines in any order, blank lines before and between them, empty values, values holding a colon, sizes up to the 512-byte cap; three placement styles; values up to 2^64-1; chains of hundreds of records) must be read by the library's Parse exactly as the independent decoder reads it; histories: one run = a history of 1..3 sessions (create / increment / close / reopen by new process objects = restart / extend), 1..3 concurrent writer processes per session, over a pool of names of 1..4096 bytes of arbitrary content (ASCII, any byte incl. NUL and newline, non-UTF-8, ditto marks), build metadata up to and beyond the 512-byte cap, optionally starting from a file written by the independent encoder (different placement policy); every intermediate snapshot is strictly decoded; the final content must equal the model and the library's Parse must agree with the independent decoder; distinct = distinct event-log hash; distinct_states counts distinct (previous limit mod 16384, name length) placement cases reached; metadata clearly below the cap must be accepted",
 		Real:        []string{"internal/counter", "internal/mmap", "internal/telemetry", "Linux tmpfs / mmap"},
 		Stub:        []string{"processes simulated in one address space", "Go scheduler", "wall clock"},
